@@ -13,6 +13,8 @@ use syn::visit_mut::{self, VisitMut};
 pub struct Config {
     /// path prefix (segment idents) -> replacement path text
     pub typemap: Vec<(Vec<String>, String)>,
+    /// exact type (printed without spaces, lifetimes erased) -> replacement type text
+    pub typemap_exact: Vec<(String, String)>,
     /// generic parameters to drop from signatures / impl headers ("'doc", "T")
     pub drop_generics: Vec<String>,
     /// R5: map the string family to `Str`
@@ -32,6 +34,11 @@ pub struct Config {
     pub lift: BTreeMap<u64, (String, String, String)>,
     /// R3 desugaring of `.iter().any(closure)` for the given closure ordinals into loops
     pub any_to_loop: BTreeSet<u64>,
+    /// R3 general: iterator chains (numbered in pre-order among the chains of the function) to desugar into one loop;
+    /// value = element mode of the source: "ref" (`&s[i]`) or "val" (`s[i]`)
+    pub chains: BTreeMap<u64, String>,
+    /// R9: the function returns `impl Iterator<Item = T>`; print it as returning `Vec<T>` and collect the tail expression
+    pub iter_to_vec: bool,
     /// method renames `name` -> `new_name` (receiver-independent, checked by rustc in Verus)
     pub method_rename: BTreeMap<String, String>,
     /// method calls turned into free function calls: `x.name(args)` -> `new_name(x, args)`
@@ -69,7 +76,11 @@ impl Config {
                 for e in tm {
                     let from = e[0].as_str().ok_or("typemap: bad entry")?;
                     let to = e[1].as_str().ok_or("typemap: bad entry")?;
-                    c.typemap.push((from.split("::").map(|s| s.to_string()).collect(), to.to_string()));
+                    if from.contains('<') {
+                        c.typemap_exact.push((erase_lifetimes(&from.replace(' ', "")), to.to_string()));
+                    } else {
+                        c.typemap.push((from.split("::").map(|s| s.to_string()).collect(), to.to_string()));
+                    }
                 }
             }
             c.drop_generics.extend(strs(&src["drop_generics"]));
@@ -129,6 +140,12 @@ impl Config {
                 );
             }
         }
+        if let Some(m) = item["chains"].as_object() {
+            for (k, v) in m {
+                c.chains.insert(k.parse().map_err(|_| "chains: bad key")?, v.as_str().unwrap_or("ref").to_string());
+            }
+        }
+        c.iter_to_vec = item["iter_to_vec"].as_bool().unwrap_or(false);
         for k in item["any_to_loop"].as_array().cloned().unwrap_or_default() {
             c.any_to_loop.insert(k.as_u64().ok_or("any_to_loop: bad ordinal")?);
         }
@@ -392,7 +409,59 @@ impl<'a> TypeMapPass<'a> {
     }
 }
 
+fn erase_lifetimes(s: &str) -> String {
+    // "BTreeSet<&'astr>" -> "BTreeSet<&str>"
+    let mut out = String::new();
+    let cs: Vec<char> = s.chars().collect();
+    let mut i = 0;
+    while i < cs.len() {
+        if cs[i] == '\'' {
+            i += 1;
+            while i < cs.len() && (cs[i].is_alphanumeric() || cs[i] == '_') { i += 1; }
+            if i < cs.len() && cs[i] == ',' { i += 1; }
+            continue;
+        }
+        out.push(cs[i]);
+        i += 1;
+    }
+    out
+}
+
 impl<'a> VisitMut for TypeMapPass<'a> {
+    fn visit_type_mut(&mut self, t: &mut syn::Type) {
+        if !self.cfg.typemap_exact.is_empty() {
+            let printed = erase_lifetimes(&t.to_token_stream().to_string().replace(' ', ""));
+            for (from, to) in &self.cfg.typemap_exact {
+                if printed == *from {
+                    if let Ok(nt) = syn::parse_str::<syn::Type>(to) {
+                        *t = nt;
+                        bump(self.counts, "R7.typemap_exact");
+                        return;
+                    }
+                }
+            }
+        }
+        visit_mut::visit_type_mut(self, t);
+    }
+    fn visit_expr_path_mut(&mut self, p: &mut syn::ExprPath) {
+        // `BTreeSet::<&str>::new()` : the type part of an expression path
+        if !self.cfg.typemap_exact.is_empty() && p.path.segments.len() >= 2 {
+            let n = p.path.segments.len();
+            let head: Vec<String> = p.path.segments.iter().take(n - 1).map(|s| s.to_token_stream().to_string().replace(' ', "").replace("::<", "<")).collect();
+            let printed = erase_lifetimes(&head.join("::"));
+            for (from, to) in &self.cfg.typemap_exact {
+                if printed == *from {
+                    if let Ok(mut np) = syn::parse_str::<syn::Path>(to) {
+                        np.segments.push(p.path.segments.last().unwrap().clone());
+                        p.path = np;
+                        bump(self.counts, "R7.typemap_exact");
+                        return;
+                    }
+                }
+            }
+        }
+        visit_mut::visit_expr_path_mut(self, p);
+    }
     fn visit_path_mut(&mut self, p: &mut syn::Path) {
         self.drop_generic_args(p);
         if let Some(last) = p.segments.last_mut() {
@@ -681,6 +750,7 @@ impl VisitMut for ShadowPass {
 struct LoopPass<'a> {
     cfg: &'a Config,
     counts: &'a mut Counts,
+    chains_seen: u64,
     loops: u64,
     closures: u64,
     closure_params: Vec<String>,
@@ -726,7 +796,287 @@ fn iter_shape(e: &syn::Expr) -> IterShape {
     IterShape::Other(e.clone())
 }
 
+enum Adapter {
+    Map(syn::ExprClosure),
+    Filter(syn::ExprClosure),
+    FilterMap(syn::ExprClosure),
+    Enumerate,
+    Copied,
+}
+enum Consumer {
+    Any(syn::ExprClosure),
+    Find(syn::ExprClosure),
+    Collect,
+    ForEach(syn::ExprClosure),
+    ForBody(syn::Pat, syn::Block),
+    Next,
+}
+enum ChainSrc {
+    Iter(syn::Expr),  // X.iter()
+    Other(syn::Expr),
+}
+
+fn closure_of(e: &syn::Expr) -> Option<syn::ExprClosure> {
+    match e {
+        syn::Expr::Closure(c) => Some(c.clone()),
+        _ => None,
+    }
+}
+
+fn has_return(e: &syn::Expr) -> bool {
+    struct V(bool);
+    impl<'ast> syn::visit::Visit<'ast> for V {
+        fn visit_expr_return(&mut self, _r: &'ast syn::ExprReturn) { self.0 = true; }
+        fn visit_expr_closure(&mut self, _c: &'ast syn::ExprClosure) {}
+        fn visit_expr_try(&mut self, _c: &'ast syn::ExprTry) { self.0 = true; }
+    }
+    let mut v = V(false);
+    syn::visit::Visit::visit_expr(&mut v, e);
+    v.0
+}
+
+/// peel adapters off `e` (which is the receiver of the consumer)
+fn parse_adapters(e: &syn::Expr) -> Option<(ChainSrc, Vec<Adapter>)> {
+    let mut adapters: Vec<Adapter> = Vec::new();
+    let mut cur = e.clone();
+    loop {
+        let next = match &cur {
+            syn::Expr::MethodCall(mc) => {
+                let m = mc.method.to_string();
+                match (m.as_str(), mc.args.len()) {
+                    ("map", 1) => closure_of(&mc.args[0]).map(|c| (Adapter::Map(c), (*mc.receiver).clone())),
+                    ("filter", 1) => closure_of(&mc.args[0]).map(|c| (Adapter::Filter(c), (*mc.receiver).clone())),
+                    ("filter_map", 1) => closure_of(&mc.args[0]).map(|c| (Adapter::FilterMap(c), (*mc.receiver).clone())),
+                    ("enumerate", 0) => Some((Adapter::Enumerate, (*mc.receiver).clone())),
+                    ("copied", 0) | ("cloned", 0) => Some((Adapter::Copied, (*mc.receiver).clone())),
+                    ("iter", 0) => {
+                        adapters.reverse();
+                        return Some((ChainSrc::Iter((*mc.receiver).clone()), adapters));
+                    }
+                    _ => None,
+                }
+            }
+            _ => None,
+        };
+        match next {
+            Some((a, recv)) => {
+                adapters.push(a);
+                cur = recv;
+            }
+            None => {
+                adapters.reverse();
+                return Some((ChainSrc::Other(cur), adapters));
+            }
+        }
+    }
+}
+
+fn parse_chain(e: &syn::Expr) -> Option<(ChainSrc, Vec<Adapter>, Consumer)> {
+    let mc = match e {
+        syn::Expr::MethodCall(mc) => mc,
+        _ => return None,
+    };
+    let m = mc.method.to_string();
+    let consumer = match (m.as_str(), mc.args.len()) {
+        ("any", 1) => Consumer::Any(closure_of(&mc.args[0])?),
+        ("find", 1) => Consumer::Find(closure_of(&mc.args[0])?),
+        ("for_each", 1) => Consumer::ForEach(closure_of(&mc.args[0])?),
+        ("collect", 0) => Consumer::Collect,
+        ("next", 0) => Consumer::Next,
+        _ => return None,
+    };
+    let (src, adapters) = parse_adapters(&mc.receiver)?;
+    Some((src, adapters, consumer))
+}
+
 impl<'a> LoopPass<'a> {
+    /// R3: desugar one iterator chain into a single index loop.
+    fn build_chain(&mut self, src: ChainSrc, adapters: Vec<Adapter>, consumer: Consumer, mode: &str) -> Result<syn::Expr, String> {
+        let k = self.loops;
+        self.loops += 1;
+        let s_id = syn::Ident::new(&format!("__s{}", k), Span::call_site());
+        let i_id = syn::Ident::new(&format!("__i{}", k), Span::call_site());
+        let marker = loop_marker(k);
+        let (seq_init, by_ref): (TokenStream, bool) = match &src {
+            ChainSrc::Iter(x) => (quote!(&#x), mode != "val"),
+            ChainSrc::Other(x) => {
+                let mut x2 = x.clone();
+                self.visit_expr_mut(&mut x2);
+                (quote!(#x2), mode == "ref")
+            }
+        };
+        let mut body: Vec<TokenStream> = Vec::new();
+        let mut cur = syn::Ident::new(&format!("__x{}_0", k), Span::call_site());
+        if by_ref {
+            body.push(quote!(let #cur = &#s_id[#i_id];));
+        } else {
+            body.push(quote!(let #cur = #s_id[#i_id];));
+        }
+        body.push(quote!(#i_id = #i_id + 1;));
+        let mut n = 0;
+        let mut inline = |this: &mut Self, c: &syn::ExprClosure, arg: TokenStream| -> Result<TokenStream, String> {
+            if has_return(&c.body) {
+                return Err("unsupported construct: `return`/`?` inside a closure of a desugared iterator chain (use lift)".into());
+            }
+            if c.inputs.len() != 1 {
+                return Err("unsupported construct: closure arity in iterator chain".into());
+            }
+            let pat = match &c.inputs[0] {
+                syn::Pat::Type(pt) => (*pt.pat).clone(),
+                p => p.clone(),
+            };
+            let mut b = (*c.body).clone();
+            this.visit_expr_mut(&mut b);
+            Ok(quote!({ let #pat = #arg; #b }))
+        };
+        for a in &adapters {
+            n += 1;
+            let nxt = syn::Ident::new(&format!("__x{}_{}", k, n), Span::call_site());
+            match a {
+                Adapter::Map(c) => {
+                    let e = inline(self, c, quote!(#cur))?;
+                    body.push(quote!(let #nxt = #e;));
+                    cur = nxt;
+                }
+                Adapter::Filter(c) => {
+                    let e = inline(self, c, quote!(&#cur))?;
+                    body.push(quote!(if !(#e) { continue; }));
+                }
+                Adapter::FilterMap(c) => {
+                    let e = inline(self, c, quote!(#cur))?;
+                    body.push(quote!(let #nxt = match #e { Some(__v) => __v, None => { continue; } };));
+                    cur = nxt;
+                }
+                Adapter::Enumerate => {
+                    body.push(quote!(let #nxt = (#i_id - 1, #cur);));
+                    cur = nxt;
+                }
+                Adapter::Copied => {
+                    body.push(quote!(let #nxt = *#cur;));
+                    cur = nxt;
+                }
+            }
+        }
+        bump(self.counts, "R3.chain_to_loop");
+        let e: syn::Expr = match consumer {
+            Consumer::Any(c) => {
+                let r_id = syn::Ident::new(&format!("__any{}", k), Span::call_site());
+                let e = inline(self, &c, quote!(#cur))?;
+                syn::parse_quote!({
+                    let #s_id = #seq_init;
+                    let mut #i_id: usize = 0;
+                    let mut #r_id: bool = false;
+                    while #i_id < #s_id.len() && !#r_id {
+                        #marker
+                        #(#body)*
+                        #r_id = #e;
+                    }
+                    #r_id
+                })
+            }
+            Consumer::Find(c) => {
+                let r_id = syn::Ident::new(&format!("__found{}", k), Span::call_site());
+                let e = inline(self, &c, quote!(&#cur))?;
+                syn::parse_quote!({
+                    let #s_id = #seq_init;
+                    let mut #i_id: usize = 0;
+                    let mut #r_id = None;
+                    while #i_id < #s_id.len() && #r_id.is_none() {
+                        #marker
+                        #(#body)*
+                        if #e { #r_id = Some(#cur); }
+                    }
+                    #r_id
+                })
+            }
+            Consumer::Next => {
+                let r_id = syn::Ident::new(&format!("__found{}", k), Span::call_site());
+                syn::parse_quote!({
+                    let #s_id = #seq_init;
+                    let mut #i_id: usize = 0;
+                    let mut #r_id = None;
+                    while #i_id < #s_id.len() && #r_id.is_none() {
+                        #marker
+                        #(#body)*
+                        #r_id = Some(#cur);
+                    }
+                    #r_id
+                })
+            }
+            Consumer::Collect => {
+                let r_id = syn::Ident::new(&format!("__acc{}", k), Span::call_site());
+                syn::parse_quote!({
+                    let #s_id = #seq_init;
+                    let mut #i_id: usize = 0;
+                    let mut #r_id = Vec::new();
+                    while #i_id < #s_id.len() {
+                        #marker
+                        #(#body)*
+                        #r_id.push(#cur);
+                    }
+                    #r_id
+                })
+            }
+            Consumer::ForEach(c) => {
+                let e = inline(self, &c, quote!(#cur))?;
+                syn::parse_quote!({
+                    let #s_id = #seq_init;
+                    let mut #i_id: usize = 0;
+                    while #i_id < #s_id.len() {
+                        #marker
+                        #(#body)*
+                        #e;
+                    }
+                })
+            }
+            Consumer::ForBody(pat, mut blk) => {
+                self.visit_block_mut(&mut blk);
+                let stmts = &blk.stmts;
+                syn::parse_quote!({
+                    let #s_id = #seq_init;
+                    let mut #i_id: usize = 0;
+                    while #i_id < #s_id.len() {
+                        #marker
+                        #(#body)*
+                        let #pat = #cur;
+                        #(#stmts)*
+                    }
+                })
+            }
+        };
+        Ok(e)
+    }
+
+    fn try_chain(&mut self, e: &syn::Expr) -> Option<syn::Expr> {
+        if self.cfg.chains.is_empty() {
+            return None;
+        }
+        // for-loops over adapter chains
+        if let syn::Expr::ForLoop(fl) = e {
+            if let Some((src, adapters)) = parse_adapters(&fl.expr) {
+                if !adapters.is_empty() {
+                    let c = self.chains_seen;
+                    self.chains_seen += 1;
+                    if let Some(mode) = self.cfg.chains.get(&c).cloned() {
+                        match self.build_chain(src, adapters, Consumer::ForBody((*fl.pat).clone(), fl.body.clone()), &mode) {
+                            Ok(x) => return Some(x),
+                            Err(m) => { self.err = Some(m); return None; }
+                        }
+                    }
+                }
+            }
+            return None;
+        }
+        let (src, adapters, consumer) = parse_chain(e)?;
+        let c = self.chains_seen;
+        self.chains_seen += 1;
+        let mode = self.cfg.chains.get(&c).cloned()?;
+        match self.build_chain(src, adapters, consumer, &mode) {
+            Ok(x) => Some(x),
+            Err(m) => { self.err = Some(m); None }
+        }
+    }
+
     fn rewrite_for(&mut self, fl: &syn::ExprForLoop) -> syn::Expr {
         let k = self.loops;
         self.loops += 1;
@@ -861,6 +1211,10 @@ impl<'a> LoopPass<'a> {
 
 impl<'a> VisitMut for LoopPass<'a> {
     fn visit_expr_mut(&mut self, e: &mut syn::Expr) {
+        if let Some(new) = self.try_chain(e) {
+            *e = new;
+            return;
+        }
         if let Some(new) = self.try_rewrite_any(e) {
             *e = new;
             return;
@@ -1209,6 +1563,43 @@ pub fn apply_to_fn(
         let mut p = MethodRenamePass { cfg, counts };
         p.visit_item_fn_mut(f);
     }
+    // R9
+    if cfg.iter_to_vec {
+        let item_ty: Option<syn::Type> = match &f.sig.output {
+            syn::ReturnType::Type(_, t) => match &**t {
+                syn::Type::ImplTrait(it) => {
+                    let mut found = None;
+                    for b in &it.bounds {
+                        if let syn::TypeParamBound::Trait(tb) = b {
+                            if let Some(seg) = tb.path.segments.last() {
+                                if seg.ident == "Iterator" {
+                                    if let syn::PathArguments::AngleBracketed(ab) = &seg.arguments {
+                                        for a in &ab.args {
+                                            if let syn::GenericArgument::AssocType(at) = a {
+                                                if at.ident == "Item" { found = Some(at.ty.clone()); }
+                                            }
+                                        }
+                                    }
+                                }
+                            }
+                        }
+                    }
+                    found
+                }
+                _ => None,
+            },
+            _ => None,
+        };
+        let item_ty = item_ty.ok_or("lost anchor: iter_to_vec on a function that does not return impl Iterator")?;
+        f.sig.output = syn::parse_quote!(-> Vec<#item_ty>);
+        match f.block.stmts.pop() {
+            Some(syn::Stmt::Expr(e, None)) => {
+                f.block.stmts.push(syn::Stmt::Expr(syn::parse_quote!(#e.collect()), None));
+            }
+            _ => return Err("unsupported construct: iter_to_vec needs a tail expression".into()),
+        }
+        bump(counts, "R9.iter_to_vec");
+    }
     // ghost threading
     if let Some(gp) = &cfg.ghost_params {
         let wrapped = format!("fn __f({}) {{}}", gp);
@@ -1225,7 +1616,7 @@ pub fn apply_to_fn(
     // loops / closures
     let mut info = FnInfo::default();
     {
-        let mut p = LoopPass { cfg, counts, loops: 0, closures: 0, closure_params: vec![], lifted: vec![], err: None };
+        let mut p = LoopPass { cfg, counts, chains_seen: 0, loops: 0, closures: 0, closure_params: vec![], lifted: vec![], err: None };
         p.visit_block_mut(&mut f.block);
         if let Some(e) = p.err {
             return Err(e);
